@@ -61,10 +61,41 @@ impl DoubleMerkleTree {
 // TRUSTED stand-in for ReconstructedSlice (src/types/slice.rs; derefs to Slice): the three parts read here
 pub struct ReconstructedSlice {
     pub slice_index: SliceIndex,
+    pub is_last: bool,
     pub parent: Option<BlockId>,
     pub data: Vec<u8>,
     pub slice_root: SliceRoot,
 }
+// SlicePayload (src/types/slice.rs): what the leader shreds
+pub struct SlicePayload { pub parent: Option<BlockId>, pub data: Vec<u8> }
+impl ValidatedShred {
+    pub uninterp spec fn spec_slice_root(&self) -> SliceRoot;
+}
+// `ReconstructedSlice::from_parts(payload, any_shred, any_shred.slice_root().clone())` (R8): the slice is the payload under
+// the header and slice root of the shred
+#[verifier::external_body]
+pub fn verif_slice_from_parts(payload: SlicePayload, shred: &ValidatedShred) -> (r: ReconstructedSlice)
+    ensures
+        r.parent == payload.parent, r.data == payload.data,
+        r.slice_index == shred.spec_payload().header.slice_index, r.is_last == shred.spec_payload().header.is_last,
+        r.slice_root == shred.spec_slice_root(),
+{ unimplemented!() }
+// `*shreds` on `Box<[ValidatedShred; TOTAL_SHREDS]>` (R8): the boxed array moved out
+pub fn verif_unbox_shreds(shreds: Box<[ValidatedShred; TOTAL_SHREDS]>) -> (r: [ValidatedShred; TOTAL_SHREDS])
+    ensures r == *shreds
+{ *shreds }
+// `shreds.map(Some)` (R8; array::map)
+#[verifier::external_body]
+pub fn verif_all_some(shreds: [ValidatedShred; TOTAL_SHREDS]) -> (r: [Option<ValidatedShred>; TOTAL_SHREDS])
+    ensures forall|i: int| 0 <= i < TOTAL_SHREDS ==> #[trigger] r@[i] == Some(shreds@[i]),
+{ unimplemented!() }
+// ASSUMPTION (not hostile input, the leader's OWN production): the slices a correct leader builds decode as transactions,
+// switch the parent at most once and name a parent in an earlier slot, so reconstructing the own block does not fail.
+// Established by block_producer.rs (produce_slice_payload, apply_parent_ready); not verified here.
+#[verifier::external_body]
+pub fn verif_assume_own_block_well_formed()
+    ensures false
+{ unimplemented!() }
 
 /*@ extract src/lib.rs :: struct Block
 derive
@@ -455,7 +486,9 @@ impl BlockstoreImpl {
     pub fn slot_data_mut(&mut self, slot: Slot) -> (r: &mut SlotBlockData)
         ensures
             old(self).block_data@.contains_key(slot) ==> *r == old(self).block_data@[slot],
-            !old(self).block_data@.contains_key(slot) ==> !r.leader_misbehaved && r.all_wf() && r.slot == slot,
+            !old(self).block_data@.contains_key(slot) ==> !r.leader_misbehaved && r.all_wf() && r.slot == slot
+                && r.disseminated.slot == slot && r.disseminated.last_slice is None && r.disseminated.completed is None
+                && r.disseminated.commitment_cache@.len() == 0 && r.disseminated.shreds@.len() == 0,
             final(self).block_data@ == old(self).block_data@.insert(slot, *final(r)),
             final(self).votor_channel == old(self).votor_channel,
     { unimplemented!() }
@@ -544,6 +577,12 @@ ensures
         (r matches Err(e) && (e == AddShredError::Equivocation || e == AddShredError::InvalidShred)) ==> final(self).flagged(shred.spec_payload().header.slot),
         // a flag is never taken back
         forall|s: Slot| old(self).flagged(s) ==> #[trigger] final(self).flagged(s),
+        // [C13.at_most_one_event_per_shred] one shred causes at most one announcement (first shred, block, or invalid block)
+        final(self).votor_channel.sent() == old(self).votor_channel.sent()
+            || (final(self).votor_channel.sent().len() == old(self).votor_channel.sent().len() + 1
+                && final(self).votor_channel.sent().drop_last() == old(self).votor_channel.sent()),
+        r matches Ok(Some(info)) ==> final(self).votor_channel.sent().len() == old(self).votor_channel.sent().len() + 1
+            && (final(self).votor_channel.sent().last() matches BlockstoreEvent::Block { slot, block_info } && block_info == info),
 before `let slot = shred.payload().header.slot;`
         let ghost pre = *old(self);
 @*/
@@ -593,7 +632,7 @@ ensures
             && final(self).completed is Some && (final(self).completed->0).0 == info.hash && (final(self).completed->0).1.hash == info.hash
             && ((final(self).completed->0).1.parent, (final(self).completed->0).1.parent_hash) == info.parent),
         // [C13.nothing_announced_on_error_or_incomplete]
-        !(r is Complete) ==> final(self).completed == old(self).completed,
+        !(r is Complete) ==> final(self).completed == old(self).completed && final(self).slices@ == old(self).slices@,
         // stored shreds, commitments and the last-slice marker are not touched by block reconstruction
         final(self).shreds == old(self).shreds && final(self).commitment_cache == old(self).commitment_cache
             && final(self).last_slice == old(self).last_slice && final(self).slot == old(self).slot,
@@ -840,6 +879,128 @@ ensures
         // [C13.invalid_block_announced_once]
         r == !old(self).leader_misbehaved && final(self).leader_misbehaved,
         final(self).disseminated == old(self).disseminated && final(self).repaired == old(self).repaired,
+@*/
+}
+
+impl BlockData {
+/*@ extract src/consensus/blockstore/slot_block_data.rs :: impl BlockData/fn add_own_slice
+props C13 C10
+ret r
+rewrite[R8] `ReconstructedSlice::from_parts(payload, any_shred, any_shred.slice_root().clone())` => `verif_slice_from_parts(payload, any_shred)`
+rewrite[R8] `shreds.map(Some)` => `verif_all_some(shreds)`
+rewrite[R7-own-block] `ReconstructBlockResult::Error => { vpanic(); }` => `ReconstructBlockResult::Error => { verif_assume_own_block_well_formed(); vpanic(); }`
+requires
+        old(self).wf(),
+        // [C13.leader_adds_each_own_slice_once_in_order] the caller's (block producer's) discipline: slices are added once, none
+        // after the last one, the 64 shreds of a slice share slice index and signed commitment, the first slice names a parent
+        old(self).last_slice is None,
+        old(self).completed is None,
+        shreds@[0].spec_payload().header.slice_index.0 < 1024,
+        !old(self).commitment_cache@.contains_key(shreds@[0].spec_payload().header.slice_index),
+        forall|i: int| 0 <= i < TOTAL_SHREDS ==> (#[trigger] shreds@[i]).spec_commitment() == shreds@[0].spec_commitment()
+            && shreds@[i].spec_payload().header.slice_index == shreds@[0].spec_payload().header.slice_index,
+        shreds@[0].spec_payload().header.slice_index.0 == 0 ==> payload.parent is Some,
+ensures
+        final(self).wf(),
+        // [C13.own_slice_is_cached_and_stored_like_a_received_one] the commitment is cached (so a conflicting shred for the own
+        // slot is recognised), all 64 shreds are stored under the slice index ...
+        final(self).commitment_cache@ == old(self).commitment_cache@.insert(shreds@[0].spec_payload().header.slice_index, shreds@[0].spec_commitment()),
+        final(self).shreds@.contains_key(shreds@[0].spec_payload().header.slice_index),
+        forall|i: int| 0 <= i < TOTAL_SHREDS ==> #[trigger] row_at(final(self).shreds@, shreds@[0].spec_payload().header.slice_index, i) == Some(shreds@[i]),
+        // ... and, until the block completes, the slice kept is the payload under the shreds' header and slice root - what a
+        // follower rebuilds from these shreds (given deshred(shred(p)) = p, C11)
+        r.1 is None ==> (final(self).slices@.contains_key(shreds@[0].spec_payload().header.slice_index)
+            && final(self).slices@[shreds@[0].spec_payload().header.slice_index].parent == payload.parent
+            && final(self).slices@[shreds@[0].spec_payload().header.slice_index].data == payload.data
+            && final(self).slices@[shreds@[0].spec_payload().header.slice_index].slice_root == shreds@[0].spec_slice_root()),
+        // [C13.first_shred_announced_exactly_once] on the leader path too
+        r.0 == (old(self).shreds@.len() == 0),
+        // [C13.own_block_completes_like_a_reconstructed_one C10.parent_in_earlier_slot]
+        r.1 matches Some(info) ==> final(self).completed is Some && (final(self).completed->0).0 == info.hash && info.parent.0.0 < old(self).slot.0,
+        r.1 is None ==> final(self).completed is None,
+before `let slot = self.slot;`
+        let ghost sh0 = shreds;
+        let ghost pre = *self;
+after `self.commitment_cache.insert(slice_index, commitment);`
+        proof {
+            assert forall|k: SliceIndex, i: int| self.shreds@.contains_key(k) && 0 <= i < TOTAL_SHREDS && (#[trigger] row_at(self.shreds@, k, i)) is Some implies
+                (row_at(self.shreds@, k, i)->0).spec_payload().header.slice_index == k
+                && self.commitment_cache@.contains_key(k) && self.commitment_cache@[k] == (row_at(self.shreds@, k, i)->0).spec_commitment() by {
+                assert(row_at(pre.shreds@, k, i) is Some);
+            }
+            assert(self.wf());
+        }
+before `self.shreds.insert(slice_index,`
+        let ghost mid = *self;
+before `let block_info =`
+        proof {
+            assert(mid.wf());
+            assert forall|k: SliceIndex, i: int| self.shreds@.contains_key(k) && 0 <= i < TOTAL_SHREDS && (#[trigger] row_at(self.shreds@, k, i)) is Some implies
+                (row_at(self.shreds@, k, i)->0).spec_payload().header.slice_index == k
+                && self.commitment_cache@.contains_key(k) && self.commitment_cache@[k] == (row_at(self.shreds@, k, i)->0).spec_commitment() by {
+                if k == slice_index {
+                    assert(row_at(self.shreds@, k, i) == Some(sh0@[i]));
+                } else {
+                    assert(row_at(mid.shreds@, k, i) is Some);
+                }
+            }
+            assert(self.wf());
+        }
+@*/
+}
+
+impl SlotBlockData {
+/*@ extract src/consensus/blockstore/slot_block_data.rs :: impl SlotBlockData/fn add_own_slice
+props C13
+ret r
+requires
+        old(self).disseminated.wf(), old(self).disseminated.last_slice is None, old(self).disseminated.completed is None,
+        shreds@[0].spec_payload().header.slice_index.0 < 1024,
+        !old(self).disseminated.commitment_cache@.contains_key(shreds@[0].spec_payload().header.slice_index),
+        forall|i: int| 0 <= i < TOTAL_SHREDS ==> (#[trigger] shreds@[i]).spec_commitment() == shreds@[0].spec_commitment()
+            && shreds@[i].spec_payload().header.slice_index == shreds@[0].spec_payload().header.slice_index,
+        shreds@[0].spec_payload().header.slice_index.0 == 0 ==> payload.parent is Some,
+ensures
+        final(self).disseminated.wf(),
+        final(self).leader_misbehaved == old(self).leader_misbehaved && final(self).repaired == old(self).repaired && final(self).slot == old(self).slot,
+        r.0 == (old(self).disseminated.shreds@.len() == 0),
+        r.1 matches Some(info) ==> final(self).disseminated.completed is Some && (final(self).disseminated.completed->0).0 == info.hash
+            && info.parent.0.0 < old(self).disseminated.slot.0,
+        r.1 is None ==> final(self).disseminated.completed is None,
+        final(self).disseminated.commitment_cache@ == old(self).disseminated.commitment_cache@.insert(shreds@[0].spec_payload().header.slice_index, shreds@[0].spec_commitment()),
+@*/
+}
+
+impl BlockstoreImpl {
+/*@ extract src/consensus/blockstore.rs :: impl Blockstore for BlockstoreImpl/fn add_own_slice
+props C13
+ret r
+elide-async
+rewrite[R8] `*shreds` => `verif_unbox_shreds(shreds)`
+requires
+        old(self).flags_ok(),
+        // [C13.leader_adds_each_own_slice_once_in_order] (see BlockData::add_own_slice)
+        old(self).block_data@.contains_key(shreds@[0].spec_payload().header.slot) ==> ({
+            let d = old(self).block_data@[shreds@[0].spec_payload().header.slot].disseminated;
+            d.wf() && d.last_slice is None && d.completed is None && !d.commitment_cache@.contains_key(shreds@[0].spec_payload().header.slice_index)
+        }),
+        shreds@[0].spec_payload().header.slice_index.0 < 1024,
+        forall|i: int| 0 <= i < TOTAL_SHREDS ==> (#[trigger] shreds@[i]).spec_commitment() == shreds@[0].spec_commitment()
+            && shreds@[i].spec_payload().header.slice_index == shreds@[0].spec_payload().header.slice_index,
+        shreds@[0].spec_payload().header.slice_index.0 == 0 ==> payload.parent is Some,
+ensures
+        // [C13.leader_path_emits_the_same_events] "Emits the same events as the dissemination path": FirstShred for the first
+        // slice only, a Block event exactly when this slice completed the block, never an InvalidBlock
+        final(self).flags_ok(),
+        forall|s: Slot| #[trigger] final(self).flagged(s) == old(self).flagged(s),
+        final(self).votor_channel.sent() == ({
+            let slot = shreds@[0].spec_payload().header.slot;
+            let first = !old(self).block_data@.contains_key(slot) || old(self).block_data@[slot].disseminated.shreds@.len() == 0;
+            let l1 = if first { old(self).votor_channel.sent().push(BlockstoreEvent::FirstShred(slot)) } else { old(self).votor_channel.sent() };
+            match r { Some(info) => l1.push(BlockstoreEvent::Block { slot, block_info: info }), None => l1 }
+        }),
+before `let slot = shreds[0].payload().header.slot;`
+        let ghost pre = *old(self);
 @*/
 }
 
